@@ -94,7 +94,9 @@ fn constructor_grid(r: &mut Runner) {
     let limit = "t".repeat(44);
     let subs = ["umilkTIA", "abcd", limit.as_str(), long.as_str()];
     let amounts: [u128; 4] = [1, 37, 1_000_000_000_000_000_000_000_000_000, u128::MAX];
-    let senders = [contract_addr(), p32("another-contract")];
+    // a 32-byte contract address under a 16-character prefix is 75 characters long: with a 44-character
+    // sub-denom the factory denom has 128 characters, the longest the bank module accepts
+    let senders = [contract_addr(), p32("another-contract"), mwsim::bech::addr("sixteencharprefx", "long-prefix-contract", 32), mwsim::bech::addr("a", "short-prefix-contract", 20)];
     let mut n = 0u64;
     let mut viols: Vec<(Violation, Value)> = vec![];
     let decode = |m: &CosmosMsg| -> Option<(String, Vec<u8>)> {
